@@ -10,7 +10,7 @@ from symx.run import Collector
 from harness import families as F, pipeline as P, violations as V
 
 HNAME = "harness.enforce"
-IDK = ("id", "fname", "macro", "path")
+IDK = ("id", "fname", "macro", "path", "idnp")
 
 
 def chunks(tier, n):
